@@ -504,11 +504,12 @@ func (x *e1) execOp(sd *sideRec, op Op) {
 	case OpFlush:
 		var err error
 		if f, ok := st.(interface{ RawFlush() error }); ok {
+			flushStart := x.d.Step
 			sd.InCall++
 			x.call(fmt.Sprintf("%s.RawFlush rpc%d", who, k), func() { err = f.RawFlush() })
 			sd.InCall--
 			x.d.Record(taskName(), who+".flush-return", fmt.Sprintf("rpc%d %s", k, errStr(err)))
-			x.afterFlush(sd, err)
+			x.afterFlush(sd, err, flushStart)
 		}
 	case OpWaitCtx:
 		sd.InCall++
